@@ -374,6 +374,12 @@ PROPS["C17"] = {
         # ... it holds without the merge on start, and with both merges if the merged prefix inherited the earliest due time
         {"spec": "ScheduleMerge.tla", "cfg": "ScheduleMerge_nomerge.cfg"},
         {"spec": "ScheduleMerge.tla", "cfg": "ScheduleMerge_inherit.cfg"},
+        # where a key handed over *is* until it has been advertised (provide queue, attempts, keystore, Close / restart):
+        # nothing owed is ever lost, everything owed is advertised once delivery works (liveness under fairness);
+        # the two defects the checks found in the code (D22, D24) are switches of the model and must be refuted
+        {"spec": "ProvideWork.tla", "cfg": "ProvideWork_fixed.cfg"},
+        {"spec": "ProvideWork.tla", "cfg": "ProvideWork_neg_d22.cfg", "expect": "violation"},
+        {"spec": "ProvideWork.tla", "cfg": "ProvideWork_neg_d24.cfg", "expect": "violation"},
     ],
     "drivers": [{"test": "TestSweep", "trace_spec": "SweepTrace.tla", "trace_cfg": "SweepTrace.cfg", "inv_cfg": {"C17": "SweepTrace_C17.cfg"}}],
     "assumptions": [
@@ -387,7 +393,7 @@ PROPS["C17"] = {
         "the node's address set changes at quiescent points in some runs (one to three addresses); every record is compared byte for byte with the addresses current at the instant it is sent",
         "replication factors 2-5 with swarms of 4-90 peers; behind the buffered wrapper (a quarter of the runs; its queue store survives restarts like the other stores) the same clauses are judged; the dual wrapper is not exercised",
     ],
-    "explanation": "BufferedOps.tla models the buffered wrapper's coalescing of a batch of start / forced start / provide-once / stop operations against applying them one by one (same kept set, every advertisement asked for last is queued) for all batches up to length 6 over 2 keys, with two negative controls; a real SweepingProvider (optionally behind the buffered wrapper) runs histories of start/once/stop calls, swarm growth and shrinkage, outages, restarts over several reprovide cycles of virtual time against a router and message sender that answer from a simulated swarm; TLC validates every advertisement (exactly the r nearest peers, current addresses), first advertisement and the reprovide deadline also after connectivity and delivery outages (missed work caught up within ten minutes), and silence after stop against SweepTrace.tla; ScheduleMerge.tla models the reprovide schedule under the two ways scheduled prefixes are replaced by a shorter one.",
+    "explanation": "BufferedOps.tla models the buffered wrapper's coalescing of a batch of start / forced start / provide-once / stop operations against applying them one by one (same kept set, every advertisement asked for last is queued) for all batches up to length 6 over 2 keys, with two negative controls; a real SweepingProvider (optionally behind the buffered wrapper) runs histories of start/once/stop calls, swarm growth and shrinkage, outages, restarts over several reprovide cycles of virtual time against a router and message sender that answer from a simulated swarm; TLC validates every advertisement (exactly the r nearest peers, current addresses), first advertisement and the reprovide deadline also after connectivity and delivery outages (missed work caught up within ten minutes), and silence after stop against SweepTrace.tla; ScheduleMerge.tla models the reprovide schedule under the two ways scheduled prefixes are replaced by a shorter one; ProvideWork.tla models where a handed-over key is until it has been advertised (provide queue, attempts in flight, keystore, failed attempts, Close with the persisted queue, restart) with the invariant that nothing owed is lost and the liveness property that everything owed is advertised once delivery works, the defects D22 and D24 being switches that TLC refutes.",
 }
 
 PROPS["C14"] = {
